@@ -4,7 +4,7 @@ import ast
 from ..core.model import AnchorError, FuncInfo
 from ..core.cfg import walk_shallow, cfg_of
 from ..core.facts import U, atoms_of
-from ..engine import argn, fn_name, kwarg, local_defs, returns_of, stmts_in, vars_assigned_from, var_from_call
+from ..engine import argn, fn_name, kwarg, local_defs, returns_of, stmts_in, vars_assigned_from, var_from_call, deref
 from ..kinds import cursor as K
 from ..kinds.taint import tainted_returns
 
@@ -457,8 +457,45 @@ def s6b(ctx, rep):
 
 def s4b(ctx, rep):
     """guard table for 'no repeats' (found thin by the generic mutation audit)"""
-    from .common import require_guard
+    from .common import require_guard, dom_guard
     P = ctx.P
+    # greedy batch selection: what one round of the batch picked is excluded before the next round draws
+    nc = P.method("BayesianOptimizationAlgorithm", "next_candidates")
+    cn = cfg_of(nc)
+    inner = var_from_call(nc, "_get_next_candidates")
+    if inner is None:
+        raise AnchorError("BayesianOptimizationAlgorithm.next_candidates: `inner = self._get_next_candidates(...)` not found")
+    adds = [(n_.id, x) for n_ in cn.nodes for x in cn.node_walk(n_.id) if isinstance(x, ast.Call) and fn_name(x) == "add" and "exclusion_candidates" in U(x.func.value)]
+    inner_def = U(deref(nc, ast.Name(id=inner, ctx=ast.Load())))
+    lps = [l for l in cn.nodes if l.kind == "for" and U(deref(nc, l.ast.iter)) in (inner, inner_def) and any(isinstance(x, ast.Call) and (x.lineno, x.col_offset) == (a.lineno, a.col_offset) for st in l.ast.body for x in ast.walk(st) for _, a in adds)]
+    okb = len(adds) == 1 and len(lps) == 1 and argn(adds[0][1], 0) is not None and U(argn(adds[0][1], 0)) == U(lps[0].ast.target)
+    if okb:
+        outer = [l for l in cn.nodes if l.kind == "for" and l is not lps[0] and any(x is lps[0].ast for st in l.ast.body for x in ast.walk(st))]
+        ov = U(outer[0].ast.target) if outer else None
+        extra = [a for a in dom_guard(ctx, nc, lps[0].id) if not (
+            (a[0] == "lt" and a[1] == ov) or (a[0] == "lt" and a[1] == "0" and a[2] == f"len({inner})") or (a[0] == "truth" and a[1] == inner and a[2] is True))]
+        okb = ov is not None and not extra and cn.path([s_ for s_, l in cn.succ[lps[0].id] if l == "iter"], lps[0].id, deleted={adds[0][0]}, skip_labels=("exc",)) is None
+    # random phase of a batch: each configuration put into the batch is excluded at once (the same exclusion list is then handed to
+    # the model-based part of the batch)
+    gb = P.method("BayesianOptimizationSearcher", "get_batch_configs")
+    cg_ = cfg_of(gb)
+    exv = var_from_call(gb, "_get_exclusion_candidates")
+    rnd = [x for x in walk_shallow(gb.node) if isinstance(x, ast.Assign) and isinstance(x.value, ast.Call) and fn_name(x.value) == "_get_config_not_modelbased"
+           and isinstance(x.targets[0], ast.Tuple)]
+    okr = exv is not None and len(rnd) == 1 and argn(rnd[0].value, 0) is not None and U(argn(rnd[0].value, 0)) == exv
+    if okr:
+        cv = U(rnd[0].targets[0].elts[0])
+        apps = [n_.id for n_ in cg_.nodes for x in cg_.node_walk(n_.id) if isinstance(x, ast.Call) and fn_name(x) == "append" and argn(x, 0) is not None and U(argn(x, 0)) == cv]
+        excl = {n_.id for n_ in cg_.nodes for x in cg_.node_walk(n_.id) if isinstance(x, ast.Call) and fn_name(x) == "add" and U(x.func.value) == exv
+                and argn(x, 0) is not None and U(argn(x, 0)) == cv}
+        rn = [n_.id for n_ in cg_.nodes if n_.kind == "stmt" and n_.ast is rnd[0]]
+        okr = bool(apps) and bool(excl) and bool(rn) and all(cg_.path([a_], rn[0], deleted=excl, skip_labels=("exc",)) is None for a_ in apps)
+        bo = [x for x in walk_shallow(gb.node) if isinstance(x, ast.Call) and fn_name(x) == "BayesianOptimizationAlgorithm"]
+        okr = okr and len(bo) == 1 and kwarg(bo[0], "exclusion_candidates") is not None and U(kwarg(bo[0], "exclusion_candidates")) == exv
+    rep.put(okr, "S4", "must_follow", "BayesianOptimizationSearcher.get_batch_configs: a random pick is excluded before the next pick of the batch", gb, None, "",
+            "two random picks of one batch (or a random and a model-based pick) can be the same configuration")
+    rep.put(okb, "S4", "must_follow", "BayesianOptimizationAlgorithm.next_candidates: every candidate of a round is excluded before the next round", nc,
+            adds[0][1] if adds else None, "", "a later round of a greedy batch can pick a configuration an earlier round picked: one batch holds the same configuration twice")
     f = P.method("ModelBasedSearcher", "_get_config_not_modelbased")
     cfg = cfg_of(f)
     rv = var_from_call(f, "get_config")
